@@ -1,7 +1,261 @@
-import Driver.Util
-/-! Suite C14: line-protocol handlers (stub — replaced when the property's model is built). -/
+import LoraVerif.Model.PhyState
+import LoraVerif.Model.Chip
+import Driver.C13
+/-! Suite C14: model = `Model.Phy` (`LoRa<RK>` over the SX126x / SX127x models); the "spec" column is
+the verdict of the invariants I1–I5 evaluated on the run (`-` = all hold).  Op lines:
+  C14 seq        <chip> ; <call>@<irq words>@<fault>@<pend> ; …      verbose answer
+  C14 seqh <chip> ; …                                           transcripts hashed
+see `harness/src/c14.rs`. -/
+open Model.Phy
 namespace Driver.C14
 
-def handle (_ws : List String) : String := "bad-op"
+open Driver.C13 (ChipCfg parseChip is126 mkChip showErr showLog)
+
+def splitOn' (s : String) (sep : String) : List String := (s.splitOn sep).map (fun x => x.trimAscii.toString)
+
+def natList? (s : String) : Option (List Nat) :=
+  if s = "-" then some [] else (s.splitOn ",").foldr (fun x acc => match acc, x.toNat? with
+    | some l, some n => some (n :: l) | _, _ => none) (some [])
+
+def optNat? (s : String) : Option (Option Nat) := if s = "-" then some none else s.toNat?.map some
+
+def showMode : RadioMode → String
+  | .sleep => "Sleep" | .standby => "Standby" | .frequencySynthesis => "FrequencySynthesis"
+  | .transmit => "Transmit" | .listen => "Listen" | .cad => "ChannelActivityDetection"
+  | .receive (.single n) => s!"Receive(Single({n}))"
+  | .receive .continuous => "Receive(Continuous)"
+  | .receive (.dutyCycle a b) => s!"Receive(DutyCycle({a},{b}))"
+
+def showRes : Out ApiResult → String
+  | .ok .unit => "ok"
+  | .ok (.received n bytes) => s!"ok:rx({n},{if bytes.isEmpty then "-" else hexOfBytes bytes})"
+  | .ok (.cadDetected b) => s!"ok:cad({if b then 1 else 0})"
+  | .err e => "err:" ++ showErr e
+  | .panic _ => "PANIC"
+  | .dropped => "DROPPED"
+
+def fnvStr (s : String) : String :=
+  let h := s.toUTF8.foldl (fun (h : Fnv) b => h.byte b) ({} : Fnv)
+  hex64 h.h
+
+/-- the fixed parameters of the calls (the harness uses the same) -/
+def FREQ : Nat := 868100000
+def FREQ2 : Nat := 868300000
+def txPkt : PacketParams := { preambleLength := 8, implicitHeader := false, payloadLength := 0, crcOn := true, iqInverted := false }
+def rxPkt : PacketParams := { preambleLength := 8, implicitHeader := false, payloadLength := 255, crcOn := true, iqInverted := true }
+
+def rxModeOfTok? (s : String) : Option RxMode :=
+  match s with
+  | "s" => some (.single 13) | "c" => some .continuous | "d" => some (.dutyCycle 1000 2000) | _ => none
+
+def parseCall? {μ : Type} (m : μ) (lm : Except RadioError μ) (tok : String) : Option (ApiCall μ) :=
+  match tok.splitOn ":" with
+  | ["init"] => some .init
+  | ["sleep", w] => (parseBool? w).map .sleep
+  | ["ptx"] => some (.prepareForTx m txPkt 14 [1, 2, 3])
+  | ["tx"] => some .tx
+  | ["prx", k] => (rxModeOfTok? k).map (fun mode => .prepareForRx mode m rxPkt)
+  | ["srx"] => some .startRx
+  | ["crx"] => some (.completeRx rxPkt 255)
+  | ["rx"] => some (.rx rxPkt 255)
+  | ["rsc"] => some (.rxSwitchChannel FREQ2)
+  | ["listen"] => some (.listen FREQ lm)
+  | ["pcad"] => some (.prepareForCad m)
+  | ["cad"] => some (.cad m)
+  | ["sync", w] => w.toNat?.map .setLoraSyncWord
+  | _ => none
+
+structure Step (μ : Type) where
+  call : ApiCall μ
+  env : Env
+
+def parseStep? {μ : Type} (m : μ) (lm : Except RadioError μ) (irqDefault : Nat) (s : String) : Option (Step μ) :=
+  match s.splitOn "@" with
+  | [c, irq, f, p] => do
+    let call ← parseCall? m lm c
+    let irq ← natList? irq
+    let f ← optNat? f
+    let p ← optNat? p
+    some ⟨call, { irq := irq, irqDefault := irqDefault, fault := f, pendAt := p }⟩
+  | _ => none
+
+structure Verdict where
+  bad : Option String := none
+
+def isInvalidMode : Out ApiResult → Bool
+  | .err .InvalidRadioMode => true
+  | _ => false
+
+def radioReported : Out ApiResult → Bool
+  | .err .TransmitTimeout => true
+  | .err .ReceiveTimeout => true
+  | _ => false
+
+/-- run a sequence: per call the line to print, and the first invariant that fails -/
+def runSeq {σ μ : Type} (rk : RadioKindOps σ μ) (kind : Kind) (needs : Needs) (digest : Bool)
+    (steps : List (Step μ)) (s0 : DriverState σ × World) (t0 : ChipTrack) : List String × Option String := Id.run do
+  let mut s := s0
+  let mut t := t0
+  let mut out : List String := []
+  let mut bad : Option String := none
+  let mut i := 0
+  for st in steps do
+    i := i + 1
+    let before := s.1.radioMode
+    let (o, s') := apiStep rk st.call st.env s
+    let log := s'.2.log
+    let t' := track kind needs t log
+    let tr := showLog log
+    out := out ++ [s!"{showRes o} {if digest then fnvStr tr else tr} {showMode s'.1.radioMode},{s'.1.coldStart},{s'.1.calibrateImage}"]
+    if bad.isNone then
+      -- I1: no command reached a chip that may be asleep without the wake-up
+      if t'.commandedAsleep then bad := some s!"I1-commanded-asleep@call{i}"
+      -- I3: nothing was started with a required item unprogrammed since the last loss
+      else if t'.startedUnprogrammed then bad := some s!"I3-started-unprogrammed@call{i}"
+      -- I2: configuration lost (bring-up items missing) => the driver knows (cold_start)
+      else if !(t'.items.covers { needs.rx with modulation := false, frequency := false }) && !s'.1.coldStart then
+        bad := some s!"I2-config-lost-but-not-cold_start@call{i}"
+      -- I4: a radio-reported failure leaves chip and driver in standby (continuous RX exempt, as coded)
+      else if radioReported o && before != .receive .continuous && !(t'.mode == .standby && s'.1.radioMode == .standby) then
+        bad := some s!"I4-not-standby-after-failure@call{i}"
+      -- I5: a call in the wrong mode is refused without touching the chip
+      else if isInvalidMode o && !log.isEmpty then bad := some s!"I5-chip-commanded-by-refused-call@call{i}"
+    s := s'
+    t := t'
+    -- a panic or a dropped non-droppable future ends the scenario
+    match o with
+    | .panic _ => break
+    | _ => pure ()
+  return (out, bad)
+
+/-! ### the LoRaWAN adapter -/
+
+def parseAdp? {μ : Type} (m : μ) (tok : String) : Option (AdapterCall μ) :=
+  match tok.splitOn ":" with
+  | ["atx"] => some (.tx m txPkt 14 [1, 2, 3])
+  | ["asetup", k] => match k with
+    | "s" => some (.setupRx (.single 13) m rxPkt)
+    | "c" => some (.setupRx .continuous m rxPkt)
+    | _ => none
+  | ["arxs"] => some (.rxSingle 255)
+  | ["arxc"] => some (.rxContinuous 255)
+  | ["alp"] => some .lowPower
+  | _ => none
+
+def showAdp : Out (AdapterResult × AdapterState) → String
+  | .ok (.unit, _) => "ok"
+  | .ok (.rx n bytes, _) => s!"ok:rx({n},{if bytes.isEmpty then "-" else hexOfBytes bytes})"
+  | .ok (.rxTimeout, _) => "ok:timeout"
+  | .ok (.noRxParams, _) => "err:NoRxParams"
+  | .err e => "err:" ++ showErr e
+  | .panic _ => "PANIC"
+  | .dropped => "DROPPED"
+
+def runAdp {σ μ : Type} (rk : RadioKindOps σ μ) (m : μ) (irqDefault : Nat) (calls : List String)
+    (s0 : DriverState σ × World) : Option String := do
+  let mut s := s0
+  let mut a : AdapterState := {}
+  let mut out : List String := []
+  for tok in calls do
+    match tok.splitOn "@" with
+    | [c, irq, f, p] =>
+      let call ← parseAdp? m c
+      let irq ← natList? irq
+      let f ← optNat? f
+      let p ← optNat? p
+      let (o, s') := adapterStep rk a call { irq := irq, irqDefault := irqDefault, fault := f, pendAt := p } s
+      out := out ++ [s!"{showAdp o} {fnvStr (showLog s'.2.log)}"]
+      s := s'
+      match o with
+      | .ok (_, a') => a := a'
+      | .panic _ => break
+      | _ => pure ()
+    | _ => none
+  some (String.intercalate " ; " out)
+
+def handleAdp (rest : String) : String :=
+  match splitOn' rest ";" with
+  | chip :: calls =>
+    match parseChip chip with
+    | none => "bad-op"
+    | some c =>
+      let chip0 := mkChip c 1 (if is126 c.variant then [(0x29f, 0)] else [])
+      if is126 c.variant then
+        match Driver.C13.S126.config c with
+        | none => "bad-op"
+        | some cfg =>
+          let m : Sx126x.ModulationParams := { sf := ._7, bw := ._125KHz, cr := ._4_5, ldro := 0, freq := FREQ }
+          let rk := sx126xOps cfg
+          let s0 : DriverState Unit × World := ({ rk := (), syncWord := 0x3444 }, { chip := chip0 })
+          let (o0, s1) := apiStep rk .init {} s0
+          match o0, runAdp rk m 0x0283 calls s1 with
+          | .ok _, some r => s!"{r}|-"
+          | _, _ => "bad-op"
+      else
+        let cfg := Driver.C13.S127.config c
+        let m : Sx127x.ModulationParams := { sf := ._7, bw := ._125KHz, cr := ._4_5, ldro := 0, freq := FREQ }
+        let rk := sx127xOps cfg
+        let s0 : DriverState Sx127x.Data × World := ({ rk := {}, syncWord := 0x3444 }, { chip := chip0 })
+        let (o0, s1) := apiStep rk .init {} s0
+        match o0, runAdp rk m 0x4c calls s1 with
+        | .ok _, some r => s!"{r}|-"
+        | _, _ => "bad-op"
+  | _ => "bad-op"
+
+def irqDefaultOf (kind : Kind) : Nat := if kind = .sx126x then 0x0283 else 0x4c
+
+def handleSeq (digest : Bool) (rest : String) (inv : Bool := false) : String :=
+  match splitOn' rest ";" with
+  | chip :: calls =>
+    match parseChip chip with
+    | none => "bad-op"
+    | some c =>
+      let chip0 := mkChip c 1 (if is126 c.variant then [(0x29f, 0)] else [])
+      if is126 c.variant then
+        match Driver.C13.S126.config c with
+        | none => "bad-op"
+        | some cfg =>
+          let m : Sx126x.ModulationParams := { sf := ._7, bw := ._125KHz, cr := ._4_5, ldro := 0, freq := FREQ }
+          let rk := sx126xOps cfg
+          let needs := needsFor c.dcdc c.tcxo.isSome
+          match calls.mapM (parseStep? m (.ok m) (irqDefaultOf .sx126x)) with
+          | none => "bad-op"
+          | some steps =>
+            -- `LoRa::new(radio_kind, true, delay)`: the constructor runs `init`
+            let s0 : DriverState Unit × World := ({ rk := (), syncWord := 0x3444 }, { chip := chip0 })
+            let (o0, s1) := apiStep rk .init {} s0
+            let t1 := track .sx126x needs {} s1.2.log
+            match o0 with
+            | .ok _ =>
+              let (lines, bad) := runSeq rk .sx126x needs digest steps s1 t1
+              if inv then s!"{match bad with | some b => b | none => "ok"}|ok" else
+              s!"{String.intercalate " ; " lines}|{match bad with | some b => b | none => "-"}"
+            | _ => "new-failed|-"
+      else
+        let cfg := Driver.C13.S127.config c
+        let m : Sx127x.ModulationParams := { sf := ._7, bw := ._125KHz, cr := ._4_5, ldro := 0, freq := FREQ }
+        let rk := sx127xOps cfg
+        let needs := needsFor false false
+        match calls.mapM (parseStep? m (.ok m) (irqDefaultOf .sx127x)) with
+        | none => "bad-op"
+        | some steps =>
+          let s0 : DriverState Sx127x.Data × World := ({ rk := {}, syncWord := 0x3444 }, { chip := chip0 })
+          let (o0, s1) := apiStep rk .init {} s0
+          let t1 := track .sx127x needs {} s1.2.log
+          match o0 with
+          | .ok _ =>
+            let (lines, bad) := runSeq rk .sx127x needs digest steps s1 t1
+            if inv then s!"{match bad with | some b => b | none => "ok"}|ok" else
+            s!"{String.intercalate " ; " lines}|{match bad with | some b => b | none => "-"}"
+          | _ => "new-failed|-"
+  | _ => "bad-op"
+
+def handle (ws : List String) : String :=
+  match ws with
+  | "seq" :: rest => handleSeq false (String.intercalate " " rest)
+  | "seqh" :: rest => handleSeq true (String.intercalate " " rest)
+  | "inv" :: rest => handleSeq true (String.intercalate " " rest) true
+  | "adp" :: rest => handleAdp (String.intercalate " " rest)
+  | _ => "bad-op"
 
 end Driver.C14
